@@ -36,7 +36,7 @@ ASSUMPTIONS = [
 ]
 COMPONENTS = {
     "real": ["protocol_code_generator (run per tree)", "generated classes (constructor, properties, serialize, deserialize)", "EoReader/EoWriter"],
-    "stub_or_harness": ["history generator", "spec/value generators", "reference spec parser (which members are public)"],
+    "stub_or_harness": ["history generator", "spec/value generators", "reference spec parser (which members are public)", "sim/interleave.py scheduler (real threads, the schedule decides every switch)"],
 }
 FAULT_KINDS = ["preemption_between_lines", "sibling_instance_created", "setattr_attempt", "delattr_attempt", "source_list_mutation", "returned_value_mutation_attempt"]
 PROBES = ["receive_buffer_reused_after_deserialize", "two_caller_threads_interleaved", "looked_at_like_a_python_object", "snapshot_unavailable", "member_unreadable_before_assignment", "serialize_into_shared_writer", "twin_instance_compared", "reincarnated_instance_compared", "serialize_into_nonempty_writer", "unserializable_instance_observed", "invalid_instance", "live_sequence_view_argument", "packet_write_method", "serialize_into_sanitising_writer", "array_element_mutation_attempt", "array_of_structs", "optional_array_present", "blob_on_deserialized_instance", "case_data_mutated_through_parent",
@@ -706,4 +706,4 @@ LEVEL_TEXT = (
     "serialization of the instance must equal the first. Sampling, not proof; no fault or nondeterminism dimension."
 )
 LEVEL_NOTE = "Trusted: the reference spec parser's list of public members; constructor arguments are of their documented types."
-TECHNIQUE = "deterministic seeded history simulation (mutation attempts interleaved with serializations) with aliasing probes"
+TECHNIQUE = "deterministic seeded history simulation (mutation attempts interleaved with serializations) with aliasing probes; two caller threads under a seeded line-level scheduler"
